@@ -73,6 +73,8 @@ def check(ctx):
                         pv = PathValues(Path(items[:-1]))
                         placed.append((subst(c.args[0], pv.env), subst(c.args[1], pv.env), c))
         pv = PathValues(p)
+        from sa.model import norm_guard as _ng19
+        pv.guards = [_ng19(t, pol) for t, pol in pv.guards]       # `if not skip:` with skip = A and B: the test is A and B, negated
         shortcut = any(pol and any(isinstance(c, ast.Call) and u(c.func) == 'os.path.exists' for c in ast.walk(t))
                        for t, pol in pv.guards)
         n_paths += 1
